@@ -393,3 +393,64 @@ Proof.
     + rewrite IH. split; [intros H; constructor; [reflexivity|exact H]|intros H; inversion H; assumption].
     + split; [discriminate|]. intros H. inversion H. discriminate.
 Qed.
+
+(* ------------------------------------------------------------------ laziness
+   imap never runs ahead of its consumer: the number of submitted tasks never exceeds the number of results
+   handed to the caller by more than max_workers. *)
+Definition lazy (w : nat) (s : st) : Prop := next s <= length (out s) + w.
+
+Lemma step_lazy w rs s a s' : inv w rs s -> lazy w s -> step w rs s a = Some s' -> lazy w s'.
+Proof.
+  intros (Hseq & Hlen & _) Hl Hstep. unfold lazy in *.
+  destruct a as [k|i|k]; cbn [step] in Hstep.
+  - destruct (raised s) eqn:Hr; [discriminate|].
+    destruct ((k =? next s) && (next s <? length rs) && (length (dq s) <? w)) eqn:Hg; [|discriminate].
+    apply andb_prop in Hg. destruct Hg as (_ & Hg3). apply Nat.ltb_lt in Hg3.
+    injection Hstep as <-. cbn [next out].
+    unfold consumed in Hseq. rewrite Hr, app_nil_r in Hseq.
+    apply (f_equal (@length _)) in Hseq. rewrite app_length, seq_length in Hseq. lia.
+  - destruct ((i <? next s) && negb (mem i (done s))); [|discriminate].
+    injection Hstep as <-. cbn [next out]. exact Hl.
+  - destruct (raised s) eqn:Hr; [discriminate|]. destruct (dq s) as [|h rest]; [discriminate|].
+    destruct ((k =? h) && mem h (done s)
+              && ((w <=? length (h :: rest)) && (next s <? length rs) || (length rs <=? next s)));
+      [|discriminate].
+    destruct (is_err (nth_res rs h)); injection Hstep as <-; cbn [next out]; [exact Hl|].
+    rewrite app_length. cbn [length]. lia.
+Qed.
+
+Lemma run_lazy w rs : 0 < w -> forall tr s s', inv w rs s -> lazy w s -> run w rs s tr = Some s' -> lazy w s'.
+Proof.
+  intros Hw. induction tr as [|a t IH]; intros s s' Hi Hl Hr; cbn [run] in Hr.
+  - injection Hr as <-. exact Hl.
+  - destruct (step w rs s a) as [s1|] eqn:Hs; [|discriminate].
+    apply (IH s1 s'); [exact (step_inv w rs s a s1 Hw Hi Hs)|exact (step_lazy w rs s a s1 Hi Hl Hs)|exact Hr].
+Qed.
+
+Lemma reachable_lazy w rs tr s : 0 < w -> run w rs init tr = Some s -> next s <= length (out s) + w.
+Proof.
+  intros Hw H. apply (run_lazy w rs Hw tr init s (inv_init w rs)); [|exact H].
+  unfold lazy, init. cbn. lia.
+Qed.
+
+Lemma run_app w rs : forall tr1 tr2 s, run w rs s (tr1 ++ tr2) =
+  match run w rs s tr1 with Some s1 => run w rs s1 tr2 | None => None end.
+Proof.
+  induction tr1 as [|a t IH]; intros tr2 s; cbn [app run]; [reflexivity|].
+  destruct (step w rs s a); [apply IH|reflexivity].
+Qed.
+
+(* file k is not submitted before the result of file k - w has been handed to the caller *)
+Lemma submit_waits w rs pre k s : 0 < w -> run w rs init (pre ++ [Submit k]) = Some s ->
+  next s = S k /\ k < length (out s) + w
+  /\ exists s0, run w rs init pre = Some s0 /\ out s = out s0 /\ k < length (out s0) + w.
+Proof.
+  intros Hw H. assert (Hl := reachable_lazy w rs _ s Hw H).
+  rewrite run_app in H. destruct (run w rs init pre) as [s0|] eqn:H0; [|discriminate].
+  cbn [run] in H. destruct (step w rs s0 (Submit k)) as [s1|] eqn:Hs; [|discriminate]. injection H as ->.
+  cbn [step] in Hs. destruct (raised s0); [discriminate|].
+  destruct ((k =? next s0) && (next s0 <? length rs) && (length (dq s0) <? w)) eqn:Hg; [|discriminate].
+  apply andb_prop in Hg. destruct Hg as (Hg & _). apply andb_prop in Hg. destruct Hg as (Hg & _).
+  apply Nat.eqb_eq in Hg. injection Hs as <-. cbn [next out] in *.
+  split; [lia|]. split; [lia|]. exists s0. split; [reflexivity|]. split; [reflexivity|lia].
+Qed.
